@@ -4,7 +4,8 @@ import NetaddrVerif.Model.Eui
 
 Dialect token: a built-in class name (looked up in `Gen.macDialects` / `Gen.eui64Dialects`) or
 `D,<word_size>,<num_words>,<hex of word_sep>,<pad>,<U|L>` for a user subclass.
-Errors are printed as `!` (the property does not name exception classes). -/
+The constructor ops run `Eui.ofAnyF` (= `Eui.ofAny`, Props/C08Ext.lean `ctor_faithful`).
+Errors are printed as `!<Err.tag>` (the exception class; the harness prints `common.errname`). -/
 namespace NV.Driver.C08
 open NV NV.Proto NV.Gen
 
@@ -18,7 +19,7 @@ def parseDialect (tok : String) : Option Dialect :=
 
 def showR {α} (f : α → String) : R α → String
   | .ok a => f a
-  | .error _ => "!"
+  | .error e => "!" ++ e.tag
 
 def showNats (xs : List Nat) : String := showList (xs.map toString)
 
@@ -41,25 +42,29 @@ def handle (op : String) (args : List String) : Option String :=
   | "eui_parse", [addr, ver] => do
     let a ← parseAddrArg addr
     let v ← parseOptInt ver
-    pure (showR showVV (Eui.ofAny a v))
+    pure (showR showVV (Eui.ofAnyF a v))
   | "eui_print", [ver, d, v] => do
     let _ver ← ver.toNat?; let d ← parseDialect d; let v ← v.toNat?
     pure (showR showStr (Eui.intToStr d v))
   | "eui_rt", [ver, d, v] => do
     let ver ← ver.toNat?; let d ← parseDialect d; let v ← v.toNat?
-    match Eui.intToStr d v with
-    | .error _ => pure "!"
+    match Eui.str d v with
+    | .error e => pure ("!" ++ e.tag)
     | .ok s =>
-      pure (" ".intercalate [showStr s, showR showVV (Eui.ofAny (.str s) none),
-        showR showVV (Eui.ofAny (.str s) (some ver))])
+      pure (" ".intercalate [showStr s, showR showVV (Eui.ofAnyF (.str s) none),
+        showR showVV (Eui.ofAnyF (.str s) (some ver))])
+  | "eui_fmt", [ver, v, d] => do
+    let ver ← ver.toNat?; let v ← v.toNat?
+    let d ← if d == "-" then some none else (parseDialect d).map some
+    pure (showR showStr (Eui.format ver v d))
   | "eui_acc", [ver, v, sep] => do
     let ver ← ver.toNat?; let v ← v.toNat?; let sep ← parseOptStr sep
     pure (" ".intercalate [showR showNats (Eui.words ver v), showR showBytes (Eui.packed ver v),
       showR showStr (Eui.bits ver v sep), showR showStr (Codec.intToBin v (Eui.widthOf ver)),
       showR showStr (Eui.ei ver v), showR toString (Eui.oui ver v)])
-  | "eui_iab", [v] => do
-    let v ← v.toNat?
-    pure (showBool (Eui.isIab v) ++ " " ++ showR showOptNat (Eui.iab v))
+  | "eui_iab", [ver, v] => do
+    let ver ← ver.toNat?; let v ← v.toNat?
+    pure (showBool (Eui.isIabOf ver v) ++ " " ++ showR showOptNat (Eui.iabOf ver v))
   | "iab_split", [e, strict] => do
     let e ← e.toNat?
     pure (showR showVV (Eui.splitIabMac e (strict == "T")))
